@@ -329,3 +329,181 @@ def suppress_subsumed(ctx, chk, rules):
         else:
             keep.append(v)
     chk.violations[:] = keep
+
+
+# ---------------------------------------------------------------------------------------------------------------
+# the call frame: entry trampoline, block exit, exit trampoline
+
+FIELDS = ('af', 'bc', 'de', 'hl', 'sp', 'ip', 'cycles')
+HOSTREG = {'af': 0, 'bc': 3, 'de': 2, 'hl': 1, 'sp': 12, 'ip': 13, 'cycles': 15}
+FULL32 = ('af', 'bc', 'de', 'hl')
+CALLEE_SAVED = (3, 5, 12, 13, 14, 15)
+
+
+def _fn_bytes(facts, fname, nargs):
+    """bytes a code-writing function stores into its exec slice (abstract interpretation of the function)"""
+    from . import absint
+    from .terms import C, S
+    ip = absint.Interp(facts, sym_facts=osp.reg_facts)
+    st = ip.new_state()
+    ex = ('slice', ('O', 'exec'), (), C(64, 0), S(64, 'len(exec)'))
+    args = ([ip.arg_object(st, 'emitter')] if nargs == 2 else []) + [ex]
+    rs = [r for r in ip.run(fname, args, st) if r.status == 'ok']
+    if len(rs) != 1:
+        raise Unsupported('%s has %d completing paths' % (fname, len(rs)))
+    b = osp.OpSpec.emitted_bytes(rs[0])
+    n = (max(b) + 1) if b else 0
+    return [b.get(i) for i in range(n)]
+
+
+def frame_check(ctx):
+    """-> list of (component, message); empty when the frame is right.  Raises Unsupported when undecidable."""
+    facts = ctx.facts('jit')
+    adt = facts['adts'].get('cpu::Registers')
+    if not adt:
+        raise Unsupported('ADT cpu::Registers not found')
+    offs = {f['name']: f['offset'] for f in adt['fields']}
+    size = adt.get('size', 28)
+    E = 'emitter::x86_64::Emitter::'
+    pro = _fn_bytes(facts, E + 'write_prelude_function', 1)
+    epi = _fn_bytes(facts, E + 'write_epilogue_function', 1)
+    blk = _fn_bytes(facts, E + 'encode_epilogue', 2)
+    if not blk:
+        # built with vec![..]: take the constant array the vector is initialised from
+        from .rules.c01 import const_array
+        arr, _ = const_array(facts['functions'][E + 'encode_epilogue'])
+        blk = list(arr or [])
+    if not pro or not epi or not blk:
+        raise Unsupported('trampoline bytes not found')
+    m = BDD()
+    conv = TermBV(m, sym_known)
+    problems = []
+    regsptr = BV.sym(m, 'arg:registers', 64)
+    codeaddr = BV.sym(m, 'arg:block_address', 64)
+    epiaddr = BV.sym(m, 'arg:epilogue_address', 64)
+    mem = {f: BV.sym(m, 'field:' + f, 32) for f in FIELDS}
+    stores = []
+
+    def field_at(disp, sz):
+        for f, o in offs.items():
+            if o <= disp and disp + sz // 8 <= o + 4:
+                return f, (disp - o) * 8
+        return None, 0
+
+    def load(mach, base, disp, sz):
+        if not base.same(regsptr):
+            raise Unsupported('load through a pointer other than the register-file argument')
+        f, bo = field_at(disp, sz)
+        if f is None:
+            problems.append(('layout', 'load of %d bits at displacement %d does not lie inside one Registers field %s'
+                             % (sz, disp, offs)))
+            return mach.garbage(sz, 'stray-load')
+        return mem[f].bits(bo, bo + sz)
+
+    def store(mach, base, disp, sz, v):
+        if not base.same(regsptr):
+            problems.append(('layout', 'store through a pointer that is not the register-file argument'))
+            return
+        f, bo = field_at(disp, sz)
+        if f is None:
+            problems.append(('layout', 'store of %d bits at displacement %d does not lie inside one Registers field' % (sz, disp)))
+            return
+        old = mem[f]
+        mem[f] = BV(m, old.b[:bo] + v.b + old.b[bo + sz:])
+        stores.append(f)
+
+    def decide(c):
+        if c == 1:
+            return True
+        if c == 0:
+            return False
+        raise Unsupported('data-dependent branch in a trampoline')
+
+    def call(mach, tgt, ins):
+        raise Unsupported('call in a trampoline')
+    hooks = {'conv': conv, 'decide': decide, 'call': call, 'load': load, 'store': store}
+    mach = x86.Machine(m, hooks)
+    entry = list(mach.r)
+    mach.r[7], mach.r[6], mach.r[2] = regsptr, codeaddr, epiaddr
+    entry[7], entry[6], entry[2] = regsptr, codeaddr, epiaddr
+    # 1. entry trampoline
+    mach.run(pro)
+    if not mach.exit or mach.exit[0] != 'jmpr' or not mach.exit[1].same(codeaddr):
+        problems.append(('chain', 'the entry trampoline does not end with a jump to the block address (second argument)'))
+    entry_fields = dict(mem)
+    for f in FIELDS:
+        rn = HOSTREG[f]
+        if f in FULL32:
+            if not mach.r[rn].same(entry_fields[f].zext(64)):
+                problems.append(('load:' + f, 'entry trampoline does not leave Registers.%s zero-extended in %s'
+                                 % (f, x86.REG64[rn])))
+        elif not mach.r[rn].trunc(16).same(entry_fields[f].trunc(16)):
+            problems.append(('load:' + f, 'entry trampoline does not load the low 16 bits of Registers.%s into %s'
+                             % (f, x86.REG64[rn])))
+    if mach.r[14].const_value() != 0:
+        problems.append(('status-init', 'R14 (status code) is not zero when the block starts'))
+    depth = len(mach.stack)
+    # 2. the block: guest registers take their final values, everything not callee-saved is clobbered
+    final = {f: BV.sym(m, 'final:' + f, 64) for f in FIELDS}
+    final['status'] = BV.sym(m, 'final:status', 64)
+    for f in FIELDS:
+        mach.r[HOSTREG[f]] = final[f]
+    mach.r[14] = final['status']
+    for rn in (6, 7, 8, 9, 10, 11, 5):
+        mach.r[rn] = mach.garbage(64, 'block:' + x86.REG64[rn])
+    mach.exit = None
+    mach.run(blk)
+    if not mach.exit or mach.exit[0] != 'jmpr' or not mach.exit[1].same(epiaddr):
+        problems.append(('chain', 'the block exit does not jump to the exit trampoline (third argument saved by the entry '
+                         'trampoline)'))
+    # 3. exit trampoline
+    mach.exit = None
+    mach.run(epi)
+    if not mach.exit or mach.exit[0] != 'ret':
+        problems.append(('chain', 'the exit trampoline does not end with ret'))
+    if mach.stack:
+        problems.append(('stack', 'the exit trampoline returns with %d slot(s) still pushed (of %d pushed on entry)'
+                         % (len(mach.stack), depth)))
+    for f in FIELDS:
+        want32 = final[f].trunc(32) if f in FULL32 else BV(m, final[f].b[:16] + entry_fields[f].b[16:32])
+        if not mem[f].same(want32):
+            problems.append(('store:' + f, 'exit trampoline does not store %s back to Registers.%s (%s bits)'
+                             % (x86.REG64[HOSTREG[f]], f, 32 if f in FULL32 else 16)))
+    if not mach.r[0].trunc(8).same(final['status'].trunc(8)):
+        problems.append(('return', 'the value returned in AL is not the status code held in R14'))
+    for rn in CALLEE_SAVED:
+        if not mach.r[rn].same(entry[rn]):
+            problems.append(('callee-saved', 'host register %s is not restored to its value at entry' % x86.REG64[rn]))
+    for e in mach.errors:
+        problems.append(('stack', e))
+    for c, msg in list(problems):
+        pass
+    return problems, {'prologue_bytes': len(pro), 'block_exit_bytes': len(blk), 'epilogue_bytes': len(epi),
+                      'x86_instructions': len(mach.trace), 'registers_size': size}
+
+
+_FRAME = {}
+
+
+def apply_frame_rule(ctx, chk, rid, want, file='src/emitter/x86_64.rs'):
+    """components: load:<field> store:<field> status-init return callee-saved stack chain layout"""
+    if 'r' not in _FRAME:
+        try:
+            _FRAME['r'] = frame_check(ctx)
+        except Unsupported as e:
+            _FRAME['r'] = e
+    r = _FRAME['r']
+    if isinstance(r, Unsupported):
+        chk.error('%s: call frame outside the modelled fragment: %s' % (rid, r.why))
+        return
+    problems, info = r
+    comps = ['load:' + f for f in FIELDS] + ['store:' + f for f in FIELDS] + ['status-init', 'return', 'callee-saved',
+                                                                               'stack', 'chain', 'layout']
+    for c in comps:
+        if not want(c):
+            continue
+        mine = [msg for cc, msg in problems if cc == c]
+        if mine:
+            chk.fail(rid, 'frame:' + c, mine[0], file, None)
+        else:
+            chk.ok(rid, 'frame:' + c, sample=dict(info, component=c) if c in ('chain', 'load:cycles') else None)
